@@ -95,10 +95,31 @@ impl Prop for C09 {
         }
     }
     fn required_probes(&self, _tier: Tier) -> Vec<&'static str> {
-        vec!["flip_prev", "flip_merkle", "flip_tx", "swap_other_height", "swap_foreign", "bad_genesis", "consistent_from_genesis", "consistent_start_gt_0", "odd_level_tree", "flip_at_first_processed_height", "flip_in_auxpow_block", "narrow_range_of_long_chain", "flip_genesis_header_field", "repeated_txid_as_merkle_siblings", "stored_header_differs_from_indexed_outside_prev_and_merkle", "pruned_predecessor_record"]
+        vec!["flip_prev", "flip_merkle", "flip_tx", "swap_other_height", "swap_foreign", "bad_genesis", "consistent_from_genesis", "consistent_start_gt_0", "odd_level_tree", "flip_at_first_processed_height", "flip_in_auxpow_block", "narrow_range_of_long_chain", "flip_genesis_header_field", "repeated_txid_as_merkle_siblings", "stored_header_differs_from_indexed_outside_prev_and_merkle", "pruned_predecessor_record", "verified_run_over_65536_blocks"]
     }
     fn explore(&self, item: u64, rng: &mut Rng, tier: Tier, h: &mut Harness) -> Result<(), String> {
         let n_cons = if tier == Tier::Quick { 200 } else { 4000 };
+        if item == 11 {
+            // one verified run over more than 2^16 blocks (whatever a run drops or caches on the way, the link
+            // check of every block still finds its predecessor's record)
+            let coin = "litecoin";
+            let mut scn = new_scenario("C09", "consistent-long-run", coin);
+            let n = (1usize << 16) + rng.usize(300, 1200);
+            scn.chain = marker_chain(0, n, rng);
+            if let Some(g) = genesis_block(coin) {
+                scn.chain[0] = g;
+            }
+            scn.layouts = vec![single_file_layout(n)];
+            scn.index = index_opts(rng);
+            scn.index.storage = "flush".into();
+            let mut r = RunSpec::new("simplestats");
+            r.verify = true;
+            r.threads = 4;
+            scn.runs = vec![r];
+            h.stats.probe("verified_run_over_65536_blocks");
+            h.check(&mut scn)?;
+            return Ok(());
+        }
         if item < n_cons {
             // ---- completeness
             let coin = COINS[(item % 8) as usize];
@@ -251,6 +272,39 @@ impl Prop for C09 {
                 parent_height: None,
                 parent_extra: None,
             });
+        }
+        // a stale sibling of block 1 in the index (earlier-sorting, so it loses the height) and a block built on
+        // it: offered in the place of block 2 it links to an *indexed* hash, but not to the hash of height 1
+        if w % 3 != 1 {
+            let act1 = crate::ser::build_all(&world).active[1].hash;
+            let mut sib = small_block(1, 2, rng, false);
+            // (its own parent link points elsewhere, so that offering it for height 1 stays a detectable swap)
+            sib.prev = Some(Bytes(rng.bytes(32)));
+            let mut ok = false;
+            for _ in 0..400 {
+                if crate::ser::build_block(&sib, [0; 32]).hash < act1 {
+                    ok = true;
+                    break;
+                }
+                sib.nonce = sib.nonce.wrapping_add(1);
+            }
+            if ok {
+                world.extras.push(ExtraBlock {
+                    block: sib,
+                    kind: "stale-sibling".into(),
+                    index: Some(ExtraIndex { height: 1, status: 3 | 8 }),
+                    parent_height: None,
+                    parent_extra: None,
+                });
+                let sx = world.extras.len() - 1;
+                world.extras.push(ExtraBlock {
+                    block: small_block(2, 2, rng, false),
+                    kind: "child-of-stale-sibling".into(),
+                    index: None,
+                    parent_height: None,
+                    parent_extra: Some(sx),
+                });
+            }
         }
         let mut lay = single_file_layout(nb);
         for xi in 0..world.extras.len() {
